@@ -63,6 +63,7 @@ pub struct Gen<'a> {
     pub uni: &'a mut KeyUniverse,
     pub locks: LockCfg,
     pub max_keys: usize,
+    pub pending_twin: Option<usize>,
     pub max_hashes: usize,
     ctx: MsCtx,
     nodes_left: i32,
@@ -88,7 +89,7 @@ fn wrap(w: &str, inner: &str) -> String {
 
 impl<'a> Gen<'a> {
     pub fn new(rng: &'a mut Rng, uni: &'a mut KeyUniverse, locks: LockCfg) -> Self {
-        Gen { rng, uni, locks, max_keys: 8, max_hashes: 3, ctx: MsCtx::Segwit, nodes_left: 20, keys_used: vec![], hashes_used: vec![], locks_used: vec![] }
+        Gen { rng, uni, locks, pending_twin: None, max_keys: 8, max_hashes: 3, ctx: MsCtx::Segwit, nodes_left: 20, keys_used: vec![], hashes_used: vec![], locks_used: vec![] }
     }
 
     fn key_form(&mut self) -> KeyForm {
@@ -137,8 +138,8 @@ impl<'a> Gen<'a> {
                     let f = self.uni.keys[*k].form;
                     match self.ctx {
                         MsCtx::Bare | MsCtx::Legacy => f != KeyForm::XOnly,
-                        MsCtx::Segwit => f != KeyForm::XOnly && f != KeyForm::Uncompressed,
-                        MsCtx::Tap => f != KeyForm::Uncompressed,
+                        MsCtx::Segwit => f != KeyForm::XOnly && f != KeyForm::Uncompressed && f != KeyForm::TwinUncompressed,
+                        MsCtx::Tap => f != KeyForm::Uncompressed && f != KeyForm::TwinUncompressed,
                     }
                 })
                 .collect();
@@ -147,8 +148,24 @@ impl<'a> Gen<'a> {
                 return self.uni.keys[k].expr.clone();
             }
         }
+        // the second name of a key that is already in this descriptor
+        if let Some(t) = self.pending_twin.take() {
+            if self.rng.chance(2, 3) {
+                return self.uni.keys[t].expr.clone();
+            }
+            self.pending_twin = Some(t);
+        }
         let form = self.key_form();
         let owner = self.rng.below(self.uni.n_signers as u64) as usize;
+        // one key, two names: in tapscript the two parity prefixes of one x-only key, before segwit
+        // the compressed and the uncompressed serialization
+        if form == KeyForm::Single && matches!(self.ctx, MsCtx::Tap | MsCtx::Legacy) && self.pending_twin.is_none() && self.rng.chance(1, 10) {
+            let k = self.uni.new_key(owner, KeyForm::Single);
+            let t = self.uni.new_key(owner, if self.ctx == MsCtx::Tap { KeyForm::TwinOtherParity } else { KeyForm::TwinUncompressed });
+            self.keys_used.push(k);
+            self.pending_twin = Some(t);
+            return self.uni.keys[k].expr.clone();
+        }
         let k = self.uni.new_key(owner, form);
         self.keys_used.push(k);
         self.uni.keys[k].expr.clone()
@@ -502,6 +519,7 @@ impl<'a> Gen<'a> {
         self.keys_used.clear();
         self.hashes_used.clear();
         self.locks_used.clear();
+        self.pending_twin = None;
         let source = self.rng.below(3);
         let (text, src): (String, &'static str) = match kind {
             OutKind::Bare => {
